@@ -196,6 +196,10 @@ func (in *Interp) Branch(c *smt.Term) bool {
 	var d int
 	if in.pos < len(in.Prefix) {
 		d = in.Prefix[in.pos]
+	} else if in.freeBoolVar(c) {
+		d = 1
+		alt := append(append([]int{}, in.Decisions...), 0)
+		in.X.push(alt)
 	} else {
 		t := in.Feasible(c)
 		if !t {
@@ -216,6 +220,26 @@ func (in *Interp) Branch(c *smt.Term) bool {
 	}
 	in.PC = append(in.PC, nc)
 	return false
+}
+
+// freeBoolVar: c is a bare boolean variable (or its negation) that no path-condition conjunct mentions,
+// so both outcomes are feasible without asking the solver.
+func (in *Interp) freeBoolVar(c *smt.Term) bool {
+	if len(c.Syms) != 1 {
+		return false
+	}
+	name := c.Syms[0]
+	if c.S != name && c.S != "(not "+name+")" {
+		return false
+	}
+	for _, p := range in.PC {
+		for _, s := range p.Syms {
+			if s == name {
+				return false
+			}
+		}
+	}
+	return true
 }
 
 // Choose forks into n concrete alternatives (no solver involved).
@@ -531,7 +555,12 @@ func (in *Interp) invoke(fr *frame, c *ssa.CallCommon, fv Value, args []Value) V
 		if op, ok := recv.V.(*Opaque); ok && op != nil {
 			return in.opaqueMethod(recv, c.Method, args[1:])
 		}
-		fn := in.P.Prog.LookupMethod(recv.T, c.Method.Pkg(), c.Method.Name())
+		if pp, ok := recv.V.(*Ptr); ok && pp != nil && pp.Obj != nil {
+			if _, isOp := pp.Obj.V.(*Opaque); isOp && len(pp.Path) == 0 {
+				return in.opaqueMethod(recv, c.Method, args[1:])
+			}
+		}
+		fn := in.lookupMethod(recv.T, c.Method)
 		if fn == nil {
 			in.end("unmodelled", "UNMODELLED method %s on dynamic type %s at %s", c.Method.Name(), recv.T, in.where())
 		}
@@ -545,6 +574,15 @@ func (in *Interp) invoke(fr *frame, c *ssa.CallCommon, fv Value, args []Value) V
 		return in.builtin(fr, c, cl.Name[8:], args)
 	}
 	return in.CallValue(cl, args)
+}
+
+func (in *Interp) lookupMethod(t types.Type, m *types.Func) (fn *ssa.Function) {
+	defer func() {
+		if r := recover(); r != nil {
+			fn = nil
+		}
+	}()
+	return in.P.Prog.LookupMethod(t, m.Pkg(), m.Name())
 }
 
 func (in *Interp) opaqueMethod(recv *Iface, m *types.Func, args []Value) Value {
